@@ -199,7 +199,8 @@ def cmd_text(op):
     if k == "fetch":
         _, _, uidc, st, kind = op
         att = {"flags": "(FLAGS)", "peek": "(BODY.PEEK[HEADER.FIELDS (SUBJECT)] INTERNALDATE)",
-               "body": "(BODY[HEADER.FIELDS (SUBJECT)] INTERNALDATE)"}[kind]
+               "body": "(BODY[HEADER.FIELDS (SUBJECT)] INTERNALDATE)",
+               "both": "(FLAGS BODY[HEADER.FIELDS (SUBJECT)] INTERNALDATE)"}[kind]
         return f"t {'UID ' if uidc else ''}FETCH {mboxx.set_text(st)} {att}"
     if k == "expunge":
         return "t EXPUNGE" if op[2] is None else f"t UID EXPUNGE {mboxx.set_text(op[2])}"
